@@ -289,6 +289,13 @@ class VM:
         except _JSThrow as e:
             # A throw that crossed native code: look for the handler again from here
             self._throw(e.value)
+        except (MemoryLimitError, TimeLimitError):
+            raise
+        except JSError as e:
+            # Uncaught script exception of nested code (eval): it continues here
+            if not hasattr(e, "thrown_value"):
+                raise
+            self._throw(e.thrown_value)
 
     def _execute_opcode(self, op: OpCode, arg: Optional[int], frame: CallFrame) -> None:
         """Execute a single opcode."""
@@ -2605,16 +2612,21 @@ class VM:
         else:
             # Uncaught exception
             if isinstance(exc, str):
-                raise JSError(exc)
+                err = JSError(exc)
             elif isinstance(exc, JSObject):
                 msg = exc.get("message")
                 name = exc.get("name")
                 if isinstance(name, str) and name and name != "Error":
                     # Report the error's own class (TypeError, RangeError, ...)
-                    raise JSError(to_string(msg) if msg else "", name)
-                raise JSError(to_string(msg) if msg else "Error")
+                    err = JSError(to_string(msg) if msg else "", name)
+                else:
+                    err = JSError(to_string(msg) if msg else "Error")
             else:
-                raise JSError(to_string(exc))
+                err = JSError(to_string(exc))
+            # Keep the value: if this VM runs nested code (eval), the throw goes on
+            # in the calling script
+            err.thrown_value = exc
+            raise err
 
     def _handle_python_exception(self, error_type: str, message: str) -> None:
         """Convert a Python exception to a JavaScript exception and throw it."""
